@@ -122,10 +122,19 @@ SIGS['c12'] = {
     'specials': ['~', '&', '--', '``'], 'verb': False,
 }
 SIGS['default-noverb'] = dict(SIGS['default'], verb=False)
+# the core sublanguage of C03 (no sectioning, citations, definitions, tables, floats: constructs
+# whose rendering may carry state or layout the statement does not speak about)
+SIGS['core-noverb'] = {
+    'macros': {k: SIGS['default']['macros'][k] for k in
+               ('textbf', 'textit', 'emph', 'text', 'mathrm', 'frac', 'hat', "'", 'c', 'alpha',
+                'ldots', '&', '%', '$', '{', '}', ',', 'quad')},
+    'envs': {k: SIGS['default']['envs'][k] for k in ('equation', 'align*', 'x')},
+    'specials': ['~', '--', '---', '``', "''"], 'verb': False,
+}
 SIGS['every-noverb'] = dict(SIGS['every'], macros={k: v for k, v in SIGS['every']['macros'].items()
                                                    if not any(sl['k'] == 'v' for sl in v)})
 # which real context a signature table is parsed with
-CTX_OF = {'c12': 'c12', 'default-math': 'default', 'every-math': 'every', 'default': 'default', 'every': 'every', 'default-noverb': 'default',
+CTX_OF = {'core-noverb': 'default', 'c12': 'c12', 'default-math': 'default', 'every-math': 'every', 'default': 'default', 'every': 'every', 'default-noverb': 'default',
           'every-noverb': 'every', 'every-strings': 'every-strings',
           'every-nounknown': 'every-nounknown'}
 
@@ -392,6 +401,8 @@ def _norm_slots(item_slots, sigslots, sig):
             continue
         form, pre, content = sl
         pre = _norm_pre(pre, False)
+        if form in ('braced', 'bracket') and sg.get('mode') == 'math':
+            content = _no_pars(content)
         if form == 'braced':
             content = normalise(content, sig)
         elif form == 'bracket':
@@ -452,6 +463,31 @@ def _slot_first_char(sl):
     return s[:1]
 
 
+def _no_pars(items):
+    """math material holds no blank line (a paragraph break inside a formula is an error in
+    LaTeX, so such documents are outside every property's domain): replaced by a blank, at any
+    depth"""
+    out = []
+    for it in items:
+        it = list(it)
+        k = it[0]
+        if k == 'par':
+            it = ['space', ' ']
+        elif k in ('group', 'bgroup'):
+            it[1] = _no_pars(it[1])
+        elif k == 'macro':
+            it[3] = [sl if (sl is None or sl[0] not in ('braced', 'bracket'))
+                     else [sl[0], sl[1], _no_pars(sl[2])] for sl in it[3]]
+        elif k == 'env':
+            it[2] = [sl if (sl is None or sl[0] not in ('braced', 'bracket'))
+                     else [sl[0], sl[1], _no_pars(sl[2])] for sl in it[2]]
+            it[3] = _no_pars(it[3])
+        elif k == 'math':
+            it[3] = _no_pars(it[3])
+        out.append(it)
+    return out
+
+
 def normalise(items, sig, in_bracket=False, _top=True):
     out = []
     for it in items:
@@ -486,15 +522,15 @@ def normalise(items, sig, in_bracket=False, _top=True):
         elif k == 'env':
             sigslots = sig['envs'][it[1]][0]
             it[2] = _norm_slots(it[2], sigslots, sig)
+            if sig['envs'][it[1]][1] == 'math':
+                it[3] = _no_pars(it[3])
             it[3] = normalise(it[3], sig)
             trig = _has_trailing_absent(it, sig)
             if trig and _first_char(it[3]) in trig:
                 # the body must not start with what an absent optional argument looks for
                 it[3] = [['group', []]] + it[3]
         elif k == 'math':
-            body = it[3]
-            if it[1] in ('$', '$$'):
-                body = [b for b in body if b[0] != 'par']
+            body = _no_pars(it[3])
             body = normalise(body, sig)
             if it[1] == '$' and not render(body).strip():
                 body = [['text', 'x']]
